@@ -838,6 +838,14 @@ func (s *SecureChannel) handleOpenSecureChannelRequest(reqID uint32, svc ua.Requ
 		return ua.StatusBadSecurityModeRejected
 	}
 
+	// Part 4, 5.5.2: the policy and the mode have to be ones the server offers.
+	// The policy was taken from the security header in readChunk.
+	if s.cfg.SecurityAllowed != nil {
+		if err := s.cfg.SecurityAllowed(s.cfg.SecurityPolicyURI, req.SecurityMode); err != nil {
+			return err
+		}
+	}
+
 	s.cfg.Lifetime = req.RequestedLifetime
 	s.cfg.SecurityMode = req.SecurityMode
 
